@@ -247,6 +247,8 @@ def same_outcome(a, b):
         return False
     if a[0] == "ok":
         return type(a[1]) is type(b[1]) and a[1] == b[1]
+    if a[0] != "err":
+        return False
     return type(a[1]) is type(b[1]) and a[1].args == b[1].args
 
 
@@ -266,17 +268,30 @@ def snapshot(root):
 ARRAY_VARS = ["AWS_BATCH_JOB_ARRAY_INDEX", "JOB_COMPLETION_INDEX", "BATCH_TASK_INDEX"]
 
 
+def run_oneshot(client, cmd):
+    """One `redun oneshot` process, in-process: import paths added by the run are undone afterwards (a real
+    worker is a fresh process; redun's add_import_path does not deduplicate)."""
+    from redun.utils import clear_import_paths
+    saved = list(sys.path)
+    try:
+        return client.execute(list(cmd))
+    finally:
+        sys.path[:] = saved
+        clear_import_paths()
+
+
 def remote_outcome(client, cmd, scratch, job):
     """Run the oneshot command in-process, then read the result the way an executor's monitor does."""
     from redun.executors.scratch import parse_job_error, parse_job_result
     raised = None
     try:
-        client.execute(list(cmd))
+        run_oneshot(client, cmd)
     except BaseException as e:  # noqa: BLE001
         raised = e
-    result, exists = parse_job_result(scratch, job)
-    if exists:
-        return ("ok", result), raised
+    # AWSBatchExecutor._process_job_status: SUCCEEDED (process exit 0) -> parse_job_result, FAILED -> parse_job_error
+    if raised is None:
+        result, exists = parse_job_result(scratch, job)
+        return (("ok", result) if exists else ("missing-output", None)), raised
     err, _tb = parse_job_error(scratch, job)
     return ("err", err), raised
 
@@ -345,7 +360,7 @@ def check_arrays(ctx, T, n_groups, tmp):
                         os.environ.pop(v, None)
                 if i == n:
                     try:
-                        client.execute(list(cmd))
+                        run_oneshot(client, cmd)
                         got = "no error"
                     except IndexError:
                         got = "!IndexError"
@@ -511,11 +526,12 @@ def check_gather(ctx, T, n_worlds, tmp):
             continue
         # ---- oracle: a binding hash -> batch job only for a job created for that hash
         for h, jid in impl.items():
-            if truth.get(jid) != h:
+            if len(h) == 40 and all(c in HEX for c in h) and truth.get(jid) != h:       # keys that can be an eval hash
                 ctx.violation("C32-reunite-wrong-hash", "gather_inflight_jobs binds an eval hash to a Batch job created for another hash",
                               case=case, expected={jid: truth.get(jid)}, actual={jid: h})
         # ---- reunite branch of _submit on the real executor
         ex.is_running = True
+        ex._scheduler = mock.Mock()
         ex.arrayer.add_job = mock.Mock()
         ex._start = mock.Mock()
         for h in rng.sample(pool, 3) + [gen_hex(rng, 40)]:
